@@ -79,6 +79,8 @@ var Seeds = [][]string{
 	// 18-19: nested built-ins with siblings; a query followed by further statements
 	{"T", "|", "extend", "strcat", "(", "a", ",", "strcat", "(", "b", ")", ")", ",", "tolower", "(", "toupper", "(", "a", ")", ")"},
 	{"T", "|", "top", "1", "by", "a", ";", "U", "|", "count", ";", "let", "a", "=", "1"},
+	// 20: built-ins nested in the last argument of the same built-in, with a trailing comma (room for one more argument)
+	{"T", "|", "extend", "a", "=", "iff", "(", "a", ",", "1", ",", "iff", "(", "b", ",", "1", ",", "2.5", ",", ")", ")", ",", "strcat", "(", "a", ",", "strcat", "(", "b", ",", ")", ")"},
 }
 
 func vocabIndex(vocab []string, lex string) int {
